@@ -31,6 +31,8 @@ type c20case struct {
 	maps  map[string]c20map // by file name (s0, ...)
 	flags []string
 	sig   string
+	// localBase: every file carries its own definition "Base" and an allOf over "#/$defs/Base"
+	localBase bool
 }
 
 const c20Mod = "example.com/mod"
@@ -131,6 +133,19 @@ func genC20Case(ctx *Ctx, i int) *c20case {
 	if i%6 == 5 {
 		c.flags = append(c.flags, "--extra-imports")
 	}
+	if layout == 2 && (i/4)%2 == 0 {
+		share := map[string]int{}
+		for _, f := range fs.Files {
+			share[c.maps[f.Name].pkg]++
+		}
+		for k, f := range fs.Files {
+			// only schemas with a package of their own: in a shared package the equal names collide (DESIGN §3.11)
+			if len(f.Root.Types) == 1 && f.Root.Types[0] == "object" && share[c.maps[f.Name].pkg] == 1 {
+				addLocalBase(f.Root, fmt.Sprintf("%d", k))
+				c.localBase = true
+			}
+		}
+	}
 	c.sig = fmt.Sprintf("files=%d layout=%d dirs=%v yaml=%v", len(fs.Files), layout, o.Dirs, o.YAML)
 	return c
 }
@@ -211,6 +226,17 @@ func c20(ctx *Ctx) (*Outcome, error) {
 				rs.problems = append(rs.problems, "unexpected output file "+out)
 			}
 		}
+		expectNames := map[string]map[string]bool{}
+		for _, f := range c.fs.Files {
+			m := c.maps[f.Name]
+			if expectNames[m.out] == nil {
+				expectNames[m.out] = map[string]bool{}
+			}
+			expectNames[m.out][m.rootType] = true
+			for _, d := range f.Root.Defs {
+				expectNames[m.out][d.Name] = true
+			}
+		}
 		for _, f := range c.fs.Files {
 			m := c.maps[f.Name]
 			want := []string{m.rootType}
@@ -220,6 +246,9 @@ func c20(ctx *Ctx) (*Outcome, error) {
 			for _, tn := range want {
 				count, where := 0, []string{}
 				for out, decls := range parsed {
+					if out != m.out && expectNames[out][tn] {
+						continue // another schema legitimately declares a type of this name in its own file
+					}
 					if _, ok := decls["type "+tn]; ok {
 						count++
 						where = append(where, out)
@@ -254,6 +283,56 @@ func c20(ctx *Ctx) (*Outcome, error) {
 			}
 			pr.Cleanup()
 		}
+		// (5b) a schema with an output file of its own, generated alone, yields that file byte-identically
+		if len(c.fs.Files) > 1 {
+			share := map[string]int{}
+			for _, f := range c.fs.Files {
+				share[c.maps[f.Name].out]++
+			}
+			solo := 0
+			for k, f := range c.fs.Files {
+				m := c.maps[f.Name]
+				if share[m.out] != 1 || solo >= ctx.N(2, 4) {
+					continue
+				}
+				solo++
+				sr := cli.Run(ctx.Env, c.inv(ctx.Env, []int{k}, nil, nil))
+				rs.runs++
+				if sr.Proc.Exit != 0 {
+					rs.problems = append(rs.problems, fmt.Sprintf("schema %s alone is refused although the whole set is accepted: %s", f.Name, sr.Failed()))
+				} else if so := sr.Outputs(); !bytes.Equal(so[m.out], outs[m.out]) {
+					rs.problems = append(rs.problems, fmt.Sprintf("the code of schema %s (%s) depends on which other schemas are in the run: alone vs together: %s", f.Name, m.out, declDiff(so[m.out], outs[m.out])))
+				}
+				sr.Cleanup()
+			}
+		}
+		// (5c) field census of the composed struct: it carries the fields of its own file's Base
+		if c.localBase {
+			for k, f := range c.fs.Files {
+				m := c.maps[f.Name]
+				decls := parsed[m.out]
+				if decls == nil {
+					continue
+				}
+				tag := fmt.Sprintf("%d", k)
+				found := false
+				for name, text := range decls {
+					if strings.HasPrefix(name, "type ") && strings.HasSuffix(name, "Details"+tag) {
+						found = true
+						if !strings.Contains(text, "Fk"+tag+" ") || !strings.Contains(text, "Own"+tag+" ") {
+							rs.problems = append(rs.problems, fmt.Sprintf("struct %s of schema %s lacks the fields of its own Base/own member: %s", name, f.Name, trunc(text, 300)))
+						}
+					}
+				}
+				hasBase := false
+				for _, d := range f.Root.Defs {
+					hasBase = hasBase || d.Name == "Base"
+				}
+				if !found && hasBase {
+					rs.problems = append(rs.problems, fmt.Sprintf("schema %s: no struct declared for the allOf property details%s", f.Name, tag))
+				}
+			}
+		}
 		// (6) unrelated extra files (own id, own package and output, disjoint names)
 		for k := 0; k < ctx.N(2, 4); k++ {
 			ex := sg.GenFileSet(r, sg.FSOpts{N: 1 + k%2, IDs: true, DistinctNames: true, Gen: sg.Opts{MaxDepth: 2, NoFormats: true}})
@@ -278,6 +357,9 @@ func c20(ctx *Ctx) (*Outcome, error) {
 						s.Types = []string{"string"}
 					}
 				})
+				if x == 0 && len(f.Root.Types) == 1 && f.Root.Types[0] == "object" {
+					addLocalBase(f.Root, "x")
+				}
 				exFlags = append(exFlags, "--schema-package", f.ID+"="+c20Mod+"/extra", "--schema-output", f.ID+"="+fmt.Sprintf("extra/%s.go", f.Name))
 				exFiles = append(exFiles, f)
 			}
@@ -377,6 +459,14 @@ func c20(ctx *Ctx) (*Outcome, error) {
 		o.Inconclusive = fmt.Sprintf("only %d of %d cases accepted: %v", okCases, n, skipReasons)
 	}
 	return o, nil
+}
+
+// addLocalBase gives a schema a definition "Base" of its own and a property composed from it: the same local
+// reference text ("#/$defs/Base") then means a different definition in every file of the run.
+func addLocalBase(root *sg.Schema, tag string) {
+	base := &sg.Schema{Types: []string{"object"}, Props: []sg.Prop{{Name: "fk" + tag, S: &sg.Schema{Types: []string{"integer"}}}, {Name: "common", S: &sg.Schema{Types: []string{"string"}}}}, Required: []string{"fk" + tag}}
+	root.Defs = append(root.Defs, sg.Prop{Name: "Base", S: base})
+	root.Props = append(root.Props, sg.Prop{Name: "details" + tag, S: &sg.Schema{AllOf: []*sg.Schema{{Ref: "#/$defs/Base", Target: base}, {Types: []string{"object"}, Props: []sg.Prop{{Name: "own" + tag, S: &sg.Schema{Types: []string{"boolean"}}}}}}}})
 }
 
 func c20Explain(ctx *Ctx, c *c20case, problem string) string { return "" }
